@@ -365,3 +365,38 @@ FUNCS = [
 TASK = Task("pattern", FUNCS, pair_space, single_space)
 TASK.valid = valid
 TASK.fixture_check = fixture_check
+
+
+# ---------------------------------------------------------------------------------- C08 edge relations
+def edge_space(tier, phase):
+    """smaller pair space for the two-execution relations: sides of <=2 patterns over {A, T, SUB} (+D thorough),
+    patterns of 1-2 distinct occurrences, plus the empty annotation"""
+    al = alphabet(tier, phase)[:4 if tier == "thorough" else 3]
+    sd = [()] + lists_over(patterns_over(al, 2, repeats=False), 2)
+    return [(a, b) for a in sd for b in sd]
+
+
+def _shift_edges(state):
+    return [("+%g" % d, shift_state(state, d)) for d in (1 / 16.0, 3.0, 1000.0)]
+
+
+def _perm_edges(state):
+    out = [("ref-list", s2) for s2 in ref_list_permutations(state)]
+    out += [("occurrences-keeping-prototype", s2) for s2 in occurrence_permutations(state, True)]
+    return out
+
+
+def _perm_free_edges(state):
+    return [("occurrences", s2) for s2 in occurrence_permutations(state, False)]
+
+
+TASK.edge_space = edge_space
+TASK.edges = {
+    "shift": {"apply": _shift_edges, "funcs": None, "keys": None},
+    "permute": {"apply": _perm_edges, "funcs": None, "keys": None},
+    # the first occurrence is the documented prototype, so standard_FPR is exempt from free occurrence permutations
+    "permute-occurrences": {"apply": _perm_free_edges,
+                            "funcs": ["pattern.establishment_FPR", "pattern.occurrence_FPR",
+                                      "pattern.three_layer_FPR", "pattern.first_n_three_layer_P",
+                                      "pattern.first_n_target_proportion_R"], "keys": None},
+}
